@@ -49,13 +49,15 @@ def run_one(x):
 
 def main():
     jobs, inp = 3, os.path.join(VERIF, "sweep_out", "results.json")
+    only_files = None
     a = sys.argv[1:]
     while a:
         if a[0] == "--jobs": jobs = int(a[1]); a = a[2:]
         elif a[0] == "--in": inp = a[1]; a = a[2:]
+        elif a[0] == "--files": only_files = set(a[1].split(",")); a = a[2:]
         else: a = a[1:]
     res = json.load(open(inp))
-    surv = [x for x in res if x["status"] == "survived"]
+    surv = [x for x in res if x["status"] == "survived" and (only_files is None or x["file"] in only_files)]
     outp = os.path.join(VERIF, "sweep_out", "filtered.json")
     done = {}
     if os.path.exists(outp):
